@@ -36,7 +36,7 @@ def run(report, tier):
                       "and one lineshape per resonance of the declared kind with its orbital momentum and the invariant-mass indices of the same "
                       "permutation, and declares the number of permutations - for both languages, for a resonance given inline or as a separate "
                       "sub-line, with and without an unrelated file read earlier in the process",
-                bounds="14 four-body amplitudes (incl. two resonances of the same name and an event type with two different repeated species; V V in S/P/D wave, V S, S S, A->V P (S and D wave), A->S P, T->V P, pseudoscalar->S P, "
+                bounds="16 four-body amplitudes (incl. two resonances of the same name, an event type with two different repeated species and two amplitudes with three identical particles = 6 orderings; V V in S/P/D wave, V S, S S, A->V P (S and D wave), A->S P, T->V P, pseudoscalar->S P, "
                        "pseudoscalar->V P; both topologies; RBW, GSpline, kMatrix, FOCUS) x 4 event-type orderings (identical particles "
                        "adjacent or not) x 2 languages x inline/sub-line x fresh/after another file",
                 functions=FUNCS, timeout=900, sample={"line": "D0{a(1)(1260)+[GSpline.EFF]{rho(770)0{pi+,pi-},pi+},K-}", "event": "pi+ K- pi+ pi-"}),
